@@ -362,7 +362,7 @@ static Verdict check_lexer(LProp prop, const LCase& c, Stats& st)
     }
     rx::Dfa impl; lx::real_lexer_dfa(impl);
     std::string w; bool inconcl = false;
-    bool eq = rx::equivalent(spec, impl, w, 400000, &inconcl);
+    bool eq = rx::equivalent(spec, impl, w, 60000, &inconcl);
     if (inconcl) return Verdict::discard("comparison-too-big");
     const rx::Dfa* tokenizer = &spec;
     rx::Dfa model;
@@ -379,7 +379,9 @@ static Verdict check_lexer(LProp prop, const LCase& c, Stats& st)
         }
         m.to_dfa(model);
         std::string w2;
-        bool same = !m.overflow && rx::equivalent(model, impl, w2);
+        bool inc2 = false;
+        bool same = !m.overflow && rx::equivalent(model, impl, w2, 60000, &inc2);
+        if (inc2) return Verdict::discard("comparison-too-big");
         int sl = rx::dfa_run(spec, w), il = rx::dfa_run(impl, w);
         det.set("witness_hex", vj::hex(w)); det.set("witness", w); det.set("spec_term", sl); det.set("impl_term", il); det.set("same_as_model_of_pinned_construction", same);
         if (!(same && eng::args().is_known("F5")))
